@@ -61,6 +61,7 @@ TOL_T = 1e-10
 RIGID_SCALE = {'cheap': 2e-1, 'medium': 3e-2, 'expensive': 5e-3}
 KINDS = ('cheap', 'medium', 'expensive')
 LEN_UNITS = ('mm', 'cm', 'm')
+NEAR_AXIS = 1e-3        # angle to the axis direction below which the known cancellation acts
 BIG_JUDGE_EVERY = 40    # in-situ beam_intersection calls judged inside the >2e7 case
 
 
@@ -249,7 +250,7 @@ def judge_beam(st: State, ev):
     ctx.violation(kind, f'beam_intersection [{tag}]: got {gi!r}, ray inside the solid over {Li!r} '
                         f'({badi.size}/{got.size} rays outside the accepted interval)', case,
                   origin=tag, sign=sign, start_inside=start_inside, near_parallel=near_par,
-                  all_failing_near_parallel=bool(np.all(np.ravel(o['near_parallel'])[badi])),
+                  all_failing_near_axis_direction=bool(np.all(np.ravel(o['tilt'])[badi] <= NEAR_AXIS)),
                   ray_class=list(cls) if cls else None)
 
 
@@ -698,11 +699,11 @@ def judge_single_scatter(st: State, ev):
         only = ('only_L_in' if abs(g1 - float(np.ravel(o1['L'])[i])) <= 1e-9 * g.scale else
                 'only_L_out' if abs(g1 - float(np.ravel(o2['L'])[i])) <= 1e-9 * g.scale else 'other')
         bad = ~ok.ravel()
-        np_all = bool(np.all((np.ravel(o1['near_parallel']) | np.ravel(o2['near_parallel']))[bad]))
+        np_all = bool(np.all(((np.ravel(o1['tilt']) <= NEAR_AXIS) | (np.ravel(o2['tilt']) <= NEAR_AXIS))[bad]))
         ctx.violation('single_scatter_distance',
                       f'distance through sample {g1!r} is not L_in + L_out = '
                       f'{float(np.ravel(o1["L"])[i] + np.ravel(o2["L"])[i])!r}', case, looks_like=only,
-                      near_parallel=np_all, origin='in_situ')
+                      all_failing_near_axis_direction=np_all, origin='in_situ')
 
 
 def on_quadrature_return(st: State, ev):
@@ -789,13 +790,17 @@ def judge_map(st: State, ev):
     ctx.dev('transmission enclosure width', float(np.max(hi - lo)))
     mu_max = float(np.max(mu))
     keys['zero_attenuation'] = bool(mu_max == 0.0)
-    keys['beam_near_parallel'] = _beam_tilt_class(g, beam)
+    keys['beam_near_axis_direction'] = _beam_tilt_class(g, beam)
+    det_tilt = _tilt(g, D - np.asarray(g.base + g.axis * float(g.h) / 2))
+    near_det = det_tilt <= NEAR_AXIS
+    keys['detector_near_axis_direction'] = bool(np.any(near_det))
     if not worst <= TOL_T:
         i, j = np.unravel_index(int(np.argmax(err)), err.shape)
         case.update(detector_index=int(i if sub is None else sub[i]), wavelength_index=int(j),
                     got=repr(float(Tj[i, j])), recomputed=repr(float(exp[i, j])),
                     mu_per_unit=repr(float(mu[j])), nodes=int(w.size),
                     sum_w_over_V=repr(float(np.sum(w.astype(LD)) / V)))
+        keys['detector_near_axis_direction'] = bool(near_det[i])
         ctx.violation('transmission_value',
                       f'transmission {float(Tj[i, j])!r}, recomputed from the observed quadrature and '
                       f'oracle paths {float(exp[i, j])!r}', case, **keys)
@@ -827,15 +832,21 @@ def judge_map(st: State, ev):
             ctx.violation('transmission_normalisation',
                           f'map differs from (weighted sum)/(pi r^2 h) by {dn:.3g}', case, **keys)
     st.maps.append({'T': T, 'geom': g, 'kind': str(kind), 'mu_max': mu_max, 'exp': exp,
-                    'sub': sub, 'beam_near_parallel': keys['beam_near_parallel']})
+                    'sub': sub, 'near_axis': bool(keys['beam_near_axis_direction'] or np.any(near_det))})
+
+
+def _tilt(g, d):
+    du, dv, dz = cyl.local_dir(g.fr, d)
+    with np.errstate(all='ignore'):
+        return np.asarray(np.sqrt(du * du + dv * dv) / np.sqrt(du * du + dv * dv + dz * dz),
+                          dtype=np.float64)
 
 
 def _beam_tilt_class(g, beam):
-    """True when the beam is parallel to the axis up to 1e-8 rad but not exactly (bitwise)."""
-    du, dv, dz = cyl.local_dir(g.fr, beam)
-    tilt = float(np.sqrt(du * du + dv * dv) / np.sqrt(du * du + dv * dv + dz * dz))
+    """True when the beam is within NEAR_AXIS rad of the axis direction but not exactly
+    (bitwise) parallel to it."""
     exact = bool(np.all(beam == g.axis) or np.all(beam == -g.axis))
-    return bool(tilt <= 1e-8 and not exact)
+    return bool(_tilt(g, beam) <= NEAR_AXIS and not exact)
 
 
 # -------------------------------------------------------------------- workload ---
@@ -1214,7 +1225,7 @@ def transmission_case(rng, st, mods, i, tier):
                            'T_moved': other['T'].ravel()[:6].tolist()},
                           axis_z_negative=bool(defect_pose), rotation_applied=True,
                           quadrature_kind=kind,
-                          beam_near_parallel=bool(m1['beam_near_parallel'] or other['beam_near_parallel']),
+                          near_axis_direction=bool(m1['near_axis'] or other['near_axis']),
                           axis_near_equator=bool(g1.keys['axis_near_equator'] or g2.keys['axis_near_equator']))
     st.maps.clear()
     return s
@@ -1435,22 +1446,23 @@ def _rotation_near_equator(v):
             ('none', 'shape', 'inf') and int(str(k.get('excess_band') or k.get('mismatch_band'))[2:]) <= -8)
 
 
-def _near_parallel_ray(v):
+def _near_axis_ray(v):
     k = v.get('keys') or {}
     kind = v.get('kind')
-    if kind == 'path_length':
-        return k.get('all_failing_near_parallel') is True
-    if kind == 'single_scatter_distance':
-        return k.get('near_parallel') is True
-    if kind in ('transmission_value', 'transmission_rigid_motion', 'transmission_other_end'):
-        return k.get('beam_near_parallel') is True
+    if kind in ('path_length', 'single_scatter_distance'):
+        return k.get('all_failing_near_axis_direction') is True
+    if kind == 'transmission_value':
+        return (k.get('beam_near_axis_direction') is True
+                or k.get('detector_near_axis_direction') is True)
+    if kind in ('transmission_rigid_motion', 'transmission_other_end'):
+        return k.get('near_axis_direction') is True
     return False
 
 
 FINDING_PREDICATES = {
     'quadrature.rotation_angle_asin.axis_z_negative': _rotation_negative_z,
     'quadrature.rotation_angle_asin.axis_near_equator': _rotation_near_equator,
-    'beam_intersection.direction_parallel_to_rounding': _near_parallel_ray,
+    'beam_intersection.direction_near_axis': _near_axis_ray,
 }
 
 TECHNIQUE = ('runtime monitors (sys.monitoring) on beam_intersection + helpers, quadrature, '
